@@ -46,6 +46,10 @@ pub struct Plan {
     /// so an old block outweighs the blocks that follow it
     #[serde(default)]
     pub slow_blocks: bool,
+    /// with `fork`: the side block is a sibling of the *tip* (built on block n_blocks-1, delivered after the tip),
+    /// so that the newest block file need not belong to the longest chain
+    #[serde(default)]
+    pub fork_at_tip: bool,
 }
 
 fn gen(seed: u64, index: u64, tier: Tier) -> Plan {
@@ -69,6 +73,7 @@ fn gen(seed: u64, index: u64, tier: Tier) -> Plan {
         fork_first: rng.chance(1, 2),
         stray_at_horizon: rng.chance(1, 3),
         slow_blocks: rng.chance(1, 3),
+        fork_at_tip: rng.chance(1, 3),
     }
 }
 
@@ -100,7 +105,7 @@ impl Scenario for C12 {
     fn meta(&self) -> Meta {
         Meta {
             level: "fault_enumeration",
-            rule: "history = producer chain over genesis period 3..6 (rebroadcasts, pruning at depth 2/4/8, purge at 2x genesis period), optionally a side block that either stays a stored side branch or arrives first (so that the main chain later wins by a reorganisation through a block received while it was not the longest), delivered block by block to a real full node (consensus path: mempool queue -> add_blocks_from_mempool -> block file + wallet file writes, purge removes); the simulated disk journals every operation. Crash images = every journal prefix k x tear class of operation k in {absent, created-empty, cut inside the header, half, all-but-last-byte, complete} (process dies, page cache survives: completed writes are durable). Twelve consecutive run indices enumerate the images of one history in chunks of 24. For each image a brand-new node runs the real start-up (Wallet::load, on_init with delete_old_blocks as drawn). Oracle: start-up does not panic; the restarted tip is a block the node had been given before the crash point; its in-window spendable set equals the reference ledger at that tip and the conservation equation holds; after a clean shutdown (full journal) the tip equals the pre-shutdown tip; the node then adopts the next three blocks of the chain. The start-up's own storage operations are journalled as well: for every image one of them (seeded) is the point of a second crash with a seeded tear class, and a third start-up must again come up without panic on a known tip. A third of the histories end with a late competing block for the height the node has just purged (tip - 2 x genesis period). For the clean image of a history with a side block: after the restart the stored side branch grows by two blocks and overtakes the main chain (a reorganisation onto a block that was not on the longest chain when the node started), then a clean shutdown and start-up must come back on the side branch's tip. After the recovery and the three further blocks a clean shutdown and another start-up must come up on exactly that extended tip. distinct_nontrivial = distinct (history, prefix, tear class) restarted.",
+            rule: "history = producer chain over genesis period 3..6 (rebroadcasts, pruning at depth 2/4/8, purge at 2x genesis period), optionally a side block that either stays a stored side branch or arrives first (so that the main chain later wins by a reorganisation through a block received while it was not the longest), delivered block by block to a real full node (consensus path: mempool queue -> add_blocks_from_mempool -> block file + wallet file writes, purge removes); the simulated disk journals every operation. Crash images = every journal prefix k x tear class of operation k in {absent, created-empty, cut inside the header, half, all-but-last-byte, complete} (process dies, page cache survives: completed writes are durable). Twelve consecutive run indices enumerate the images of one history in chunks of 24. For each image a brand-new node runs the real start-up (Wallet::load, on_init with delete_old_blocks as drawn). Oracle: start-up does not panic; the restarted tip is a block the node had been given before the crash point; its in-window spendable set equals the reference ledger at that tip and the conservation equation holds; after a clean shutdown (full journal) the tip equals the pre-shutdown tip and the node's miner has been handed that tip (in a third of the fork histories the side block is a sibling of the tip itself, so that the newest block file is not on the longest chain); the node then adopts the next three blocks of the chain. The start-up's own storage operations are journalled as well: for every image one of them (seeded) is the point of a second crash with a seeded tear class, and a third start-up must again come up without panic on a known tip. A third of the histories end with a late competing block for the height the node has just purged (tip - 2 x genesis period). For the clean image of a history with a side block: after the restart the stored side branch grows by two blocks and overtakes the main chain (a reorganisation onto a block that was not on the longest chain when the node started), then a clean shutdown and start-up must come back on the side branch's tip. After the recovery and the three further blocks a clean shutdown and another start-up must come up on exactly that extended tip. distinct_nontrivial = distinct (history, prefix, tear class) restarted.",
             real: &["ConsensusThread::on_init", "Storage::load_block_name_list/load_blocks_from_disk/write_block_to_disk/delete_block_from_disk", "Wallet::load/save", "Blockchain::add_blocks_from_mempool/add_block/delete_blocks/prune", "Block::deserialize_from_net/generate"],
             stubs: &["SimDisk journal + torn-write images (write_value = truncate+write, no fsync/rename, as RustIOHandler)", "SimConfig", "no network"],
             assumptions: &["crash model = process death (no lost un-synced writes); the power-loss model is not demanded by the property", "write errors are not injected (write_block_to_disk panics by design)"],
@@ -163,7 +168,8 @@ impl Scenario for C12 {
         // side fork: two blocks off block n_blocks-2, built by a second producer
         let mut side: Vec<BlockRec> = vec![];
         if plan.fork && plan.n_blocks >= 4 {
-            if let Ok(Ok(mut f)) = crate::util::guarded(|| c.fork_at(plan.n_blocks - 2)) {
+            let fork_index = if plan.fork_at_tip { plan.n_blocks - 1 } else { plan.n_blocks - 2 };
+            if let Ok(Ok(mut f)) = crate::util::guarded(|| c.fork_at(fork_index)) {
                 // (the first one is part of the history; the other two are kept for the stage in which the side
                 // branch overtakes the main chain after a restart)
                 for k in 0..3 {
@@ -210,6 +216,14 @@ impl Scenario for C12 {
         let mut deliveries: Vec<BlockRec> = vec![];
         for (i, rec) in c.recs[..=plan.n_blocks].iter().enumerate() {
             deliveries.push(rec.clone());
+            if plan.fork_at_tip {
+                if i == plan.n_blocks {
+                    for s in &side {
+                        deliveries.push(s.clone());
+                    }
+                }
+                continue;
+            }
             if !plan.fork_first && i == plan.n_blocks - 1 {
                 for s in &side {
                     deliveries.push(s.clone());
@@ -293,7 +307,8 @@ impl Scenario for C12 {
             let key = c.keys[2].clone();
             let node = FullNode::new(0, &key, &cfg, disk.clone(), sim2.clock.clone(), &opts);
             sim2.nodes.push(node);
-            sim2.init_node(0, false);
+            // (the clean image starts with its miner enabled, to see what the start-up hands it)
+            sim2.init_node(0, clean);
             trace.u64(*k as u64).str(tear);
             let mut dd = Digest::new();
             dd.u64(plan.seed).u64(*k as u64).str(tear);
@@ -329,16 +344,28 @@ impl Scenario for C12 {
                 r.violate("C12|restart|tip-not-known-before-crash", format!("crash at journal op {} ({}): restarted tip id {} was never given to the node before the crash", k, tear, tip.0));
                 continue;
             }
-            if clean && tip.1 != final_tip.1 && !side.is_empty() && tip.1 == side[0].hash && side[0].ts < c.recs[plan.n_blocks - 1].ts {
+            let main_sibling_ts = c.recs[if plan.fork_at_tip { plan.n_blocks } else { plan.n_blocks - 1 }].ts;
+            if clean && tip.1 != final_tip.1 && !side.is_empty() && tip.1 == side[0].hash && side[0].ts < main_sibling_ts {
                 // recorded finding: start-up re-runs the fork choice in file-name (timestamp) order. A stored
                 // sibling that carries an earlier timestamp than the main chain's block of its height is then seen
                 // first, and if its burn fee outweighs the main chain's blocks above the fork point (steeply
                 // decaying burn fee: slow main blocks) the longer main chain no longer displaces it
                 r.violate(
                     "C12|clean-restart|tip-differs|restart-prefers-heavier-earlier-sibling",
-                    format!("after a clean shutdown at id {} the node restarts on the stored sibling at id {} (sibling timestamp {} < main block timestamp {})", final_tip.0, tip.0, side[0].ts, c.recs[plan.n_blocks - 1].ts),
+                    format!("after a clean shutdown at id {} the node restarts on the stored sibling at id {} (sibling timestamp {} < main block timestamp {})", final_tip.0, tip.0, side[0].ts, main_sibling_ts),
                 );
                 continue;
+            }
+            // the restarted node goes on mining: its miner has been given the tip it came back on
+            if clean && tip.1 == final_tip.1 {
+                sim2.settle_without_fetches(20_000);
+                if sim2.nodes[0].mining.target != tip.1 {
+                    r.violate(
+                        "C12|clean-restart|miner-not-given-the-tip",
+                        format!("after a clean restart at id {} the node's miner has target {} instead of the tip (it will never find the golden ticket the next block may need)", tip.0, crate::util::hex8(&sim2.nodes[0].mining.target)),
+                    );
+                    continue;
+                }
             }
             if clean && tip.1 != final_tip.1 {
                 r.violate("C12|clean-restart|tip-differs", format!("after a clean shutdown the node restarts at id {} instead of {}", tip.0, final_tip.0));
